@@ -27,6 +27,7 @@ type KnownFinding struct {
 	ReplayPkg  string `json:"replay_pkg,omitempty"`  // package dir relative to repo
 	ReplayTest string `json:"replay_test,omitempty"` // file under /verif/replay
 	ReplayRun  string `json:"replay_run,omitempty"`  // test name
+	CarveOut   string `json:"carve_out,omitempty"`   // spec expression over the function's inputs describing the failing class
 }
 
 type KnownFile struct {
